@@ -97,7 +97,21 @@ structure AdSpec where
   body : String := ""
   compress : Bool := false
   decompress : Bool := false
+  /-- `header: {del, set, add}` of the adaptor spec, keys already canonical (`h.Del/Set/Add` canonicalise).
+  `set`/`add` are Go maps: the model applies them in list order, which is immaterial for distinct keys. -/
+  hdel : List String := []
+  hset : List (String × String) := []
+  hadd : List (String × String) := []
 deriving Repr, DecidableEq
+
+/-- `adaptHeader(resp, spec.Header)`: `for key in Del { h.Del }; for k,v in Set { h.Set }; for k,v in Add { h.Add }`. -/
+def adaptHeader (a : AdSpec) (h : Hdr) : Hdr :=
+  let h1 := h.delAll a.hdel
+  let h2 := a.hset.foldl (fun h kv => h.set kv.1 kv.2) h1
+  a.hadd.foldl (fun h kv => h.add kv.1 kv.2) h2
+
+/-- The keys an adaptor's header section touches. -/
+def AdSpec.hkeys (a : AdSpec) : List String := a.hdel ++ a.hset.map (·.1) ++ a.hadd.map (·.1)
 
 /-- `if len(ra.spec.Body) != 0 { SetPayload([]byte(Body)); Header.Set("Content-Length", len); Header.Del("Content-Encoding") }`
 (the `Set("Content-Length")` is the repair). -/
@@ -133,11 +147,15 @@ def adaptorDecompress {β} (ops : BodyOps β) (r : Resp β) : Option (Resp β) :
       | some d => some { r with payload := .bytes d,
                                 hdr := (r.hdr.set keyCL (toString (ops.len d))).del keyCE }
 
-/-- `ResponseAdaptor.Handle` (header adaption is not modelled). -/
-def adaptorHandle {β} (ops : BodyOps β) (a : AdSpec) (r : Resp β) : Resp β :=
+/-- `ResponseAdaptor.Handle` after the header section: body, compress, decompress. -/
+def adaptorCore {β} (ops : BodyOps β) (a : AdSpec) (r : Resp β) : Resp β :=
   let r1 := adaptorBody ops a.body r
   let r2 := if a.compress then adaptorCompress ops r1 else r1
   if a.decompress then (adaptorDecompress ops r2).getD r2 else r2
+
+/-- `ResponseAdaptor.Handle`: `adaptHeader`, then body / compress / decompress. -/
+def adaptorHandle {β} (ops : BodyOps β) (a : AdSpec) (r : Resp β) : Resp β :=
+  adaptorCore ops a { r with hdr := adaptHeader a r.hdr }
 
 /-- Any chain of ResponseAdaptor filters. -/
 def adaptorChain {β} (ops : BodyOps β) (as : List AdSpec) (r : Resp β) : Resp β :=
